@@ -341,6 +341,9 @@ package nbhttp
 //@   at before:OnBody#1 assert body: len(arg_data) == p.contentLength && base(arg_data) == base(data) && off(arg_data) == off(data) + start   // prop C07
 //@   at before:OnBody#2 assert chunk: len(arg_data) == p.chunkSize && base(arg_data) == base(data) && off(arg_data) == off(data) + start   // prop C07
 //@   at before:OnContentLength#1 assert cl: arg_contentLength == p.contentLength && p.contentLength >= -1   // prop C07
+//@   note what is asked of the allocator for the carry-over is exactly the unconsumed byte count - never a length announced by the peer (C08: retained memory is bounded by what was actually received)
+//@   at before:Malloc#1 assert ask1: arg_size == len(data) - start && arg_size > 0   // prop C08
+//@   at before:Malloc#2 assert ask2: arg_size == len(data) - start && arg_size > 0   // prop C08
 //@   note the upgraded protocol's parser does not reach into the HTTP parser that feeds it
 //@   at entry ghost { p.gUp = false; p.gRow = bytes_row(base(data)) }
 //@   at call:Append#1 ghost { p.gRow = bytes_row(base(*result)) }
